@@ -751,7 +751,7 @@ impl Property for C04 {
     fn rule(&self) -> String {
         "histories of context operations from an empty HashMapContext over names {a, b}, 8 values (one per type, two tuple lengths, two ints), 2 user functions: set_value, `n = v`, the 8 `n op= v`, reads, the three clears, set_function, the builtin switch, \
          clone-and-continue-on-either-copy — EXHAUSTIVE breadth-first exploration of the abstract state space of one context (every reachable state, by its shortest history, x every operation; the bucket `bfs-states-N` reports the number of states), all two-step histories involving a clone, random three-step and 60-step histories over both copies; after every step the return value and the complete observable state (lookup of both names, sorted listing, function lookup, switch, of both copies) \
-         of the real HashMapContext must equal those of the abstract map model, and `x op= v` must leave what `x = x op v` leaves. non-trivial = the history contains a rejected (type error) or overwriting assignment; distinct = distinct history"
+         of the real HashMapContext must equal those of the abstract map model, and `x op= v` must leave what `x = x op v` leaves; a context built by `context_map!` equals the one built by the same set_value / set_function calls (10 shapes). non-trivial = the history contains a rejected (type error) or overwriting assignment; distinct = distinct history"
             .into()
     }
     fn cases(&self, tier: Tier, rng: &mut Rng) -> (Vec<Case>, bool) {
@@ -873,6 +873,50 @@ impl Property for C04 {
             }
         }
         Verdict::Pass { nontrivial: if rejected { Some(case.human.clone()) } else { None }, class: if rejected { "type-rejected".into() } else { "accepted".into() } }
+    }
+    fn extra(&self, _tier: Tier, _rng: &mut Rng) -> (usize, Vec<(String, String)>, Vec<String>) {
+        // "whether through the API or …": the `context_map!` macro is the API's other way to bind; a context built by it
+        // must be the context built by the same set_value / set_function calls, and report the first failing binding
+        use evalexpr::{context_map, Context, ContextWithMutableFunctions, ContextWithMutableVariables, DefaultNumericTypes, EvalexprError, Function, HashMapContext, IterateVariablesContext};
+        type Ctx = HashMapContext<DefaultNumericTypes>;
+        fn listing(c: &Ctx) -> String {
+            let mut v: Vec<String> = c.iter_variables().map(|(k, v)| format!("{}={}", k, enc_value(&v))).collect();
+            v.sort();
+            v.join(",")
+        }
+        let mut viol = Vec::new();
+        let mut n = 0usize;
+        let mut check = |what: &str, got: Result<Ctx, EvalexprError>, want: Result<Ctx, EvalexprError>| {
+            n += 1;
+            let show = |r: &Result<Ctx, EvalexprError>| match r {
+                Ok(c) => format!("ok {} | f:{} | nb:{:?}", listing(c), enc_res(&c.call_function("f", &Value::Int(3)), enc_value), c.call_function("len", &Value::String("ab".into())).is_ok()),
+                Err(e) => format!("err {}", enc_err(e)),
+            };
+            if show(&got) != show(&want) {
+                viol.push((what.to_string(), format!("context_map! gives `{}`, the same bindings through set_value / set_function give `{}`", show(&got), show(&want))));
+            }
+        };
+        let by_api = |binds: &[(&str, Value)], with_f: bool| -> Result<Ctx, EvalexprError> {
+            let mut c = Ctx::new();
+            for (k, v) in binds {
+                c.set_value(k.to_string(), v.clone())?;
+            }
+            if with_f {
+                c.set_function("f".into(), Function::new(|v| Ok(Value::Int(v.as_int()? * 2))))?;
+            }
+            Ok(c)
+        };
+        check("empty", context_map! {}, by_api(&[], false));
+        check("int, float, value, trailing comma", context_map! { "a" => int 1, "b" => float 2.5, "c" => Value::from("s"), }, by_api(&[("a", Value::Int(1)), ("b", Value::Float(2.5)), ("c", Value::String("s".into()))], false));
+        check("no trailing comma", context_map! { "a" => int 1, "t" => Value::Tuple(vec![Value::Int(1), Value::Empty]) }, by_api(&[("a", Value::Int(1)), ("t", Value::Tuple(vec![Value::Int(1), Value::Empty]))], false));
+        check("function last", context_map! { "a" => int 7, "f" => Function::new(|v| Ok(Value::Int(v.as_int()? * 2))) }, by_api(&[("a", Value::Int(7))], true));
+        check("function first", context_map! { "f" => Function::new(|v| Ok(Value::Int(v.as_int()? * 2))), "z" => float 0.0, "e" => Value::Empty }, by_api(&[("z", Value::Float(0.0)), ("e", Value::Empty)], true));
+        check("same key twice, same type: last wins", context_map! { "a" => int 1, "a" => int 2 }, by_api(&[("a", Value::Int(1)), ("a", Value::Int(2))], false));
+        check("same key twice, other type: rejected", context_map! { "a" => int 1, "b" => int 5, "a" => float 2.0 }, by_api(&[("a", Value::Int(1)), ("b", Value::Int(5)), ("a", Value::Float(2.0))], false));
+        check("single value", context_map! { "x" => Value::Boolean(true) }, by_api(&[("x", Value::Boolean(true))], false));
+        check("single int", context_map! { "x" => int 3 }, by_api(&[("x", Value::Int(3))], false));
+        check("single float", context_map! { "x" => float 3 }, by_api(&[("x", Value::Float(3.0))], false));
+        (n, viol, vec!["context_map-vs-api".into()])
     }
 }
 
